@@ -93,4 +93,33 @@ class StrOpsStream(Stream):
         return {"s": case["s"], "pattern": case["p"]}
 
 
+class DigitStream(Stream):
+    """`int()` of every character `\\d` matches (the decimal digits of all scripts) and of four-digit years mixing scripts:
+    Model.digitVal / Model.yearVal (used by the numeric year comparison of merge_copyright_lines) against CPython."""
+    name = "pydigits"
+    exhaustive = True
+    rule = ("every code point matched by re's \\d (all decimal digits of Unicode): Model.digitVal against int(c); 300 four-digit "
+            "strings mixing scripts: Model.yearVal against int(s); non-trivial = distinct value")
+
+    def cases(self, tier, rng):
+        import re
+        digits = [chr(c) for c in range(0x110000) if not 0xD800 <= c < 0xE000 and re.match(r"\d", chr(c))]
+        for i in range(0, len(digits), 50):
+            yield {"d": "".join(digits[i:i + 50])}
+        for _ in range(300):
+            yield {"y": "".join(rng.choice(digits) if rng.random() < 0.5 else rng.choice("0123456789") for _ in range(4))}
+
+    def impl(self, case):
+        if "d" in case:
+            return "".join(str(int(c)) for c in case["d"])
+        return str(int(case["y"]))
+
+    def model_lines(self, case):
+        return ["py.digitval\t" + enc(case["d"])] if "d" in case else ["py.yearval\t" + enc(case["y"])]
+
+    def nontrivial(self, case, impl_out):
+        return impl_out
+
+
 STREAMS = [CharClassStream(), StrOpsStream()]
+DIGIT_STREAMS = [DigitStream()]
